@@ -953,7 +953,7 @@ func c18Tables() []c18Scn {
 	// (D) item forms: key form x key present x destination form, second item after it
 	for _, kf := range []string{"dot", "bare", "brace", "bbare", "name", "bad", "empty"} {
 		for _, kk := range []string{"a", "zz"} {
-			for _, d := range []string{".a", ".b", "a"} {
+			for _, d := range []string{".a", ".b", "a", ""} { // "" panicked before the fix of finding C19-b
 				for _, opt := range []bool{false, true} {
 					s := c18Scn{Env: "e0",
 						Tmpl: c18Tmpl{Form: "ok", Kind: "NK", Refs: []c18Ref{{D: "a", Strict: false}, {D: "b", Strict: false}}},
